@@ -20,6 +20,12 @@ type DynamicProxy struct {
 	// The proxy will panic if this value is nil.
 	Lookup func(host string) *route.Target
 
+	// LookupAddr returns the target for a connection to the given
+	// local address (ip:port). It decides between the routes for
+	// ip:port and for :port on one routing table. When it is nil
+	// Lookup is asked for ip:port and then for :port.
+	LookupAddr func(addr string) *route.Target
+
 	// Conn counts the number of connections.
 	Conn gkm.Counter
 
@@ -38,10 +44,15 @@ func (p *DynamicProxy) ServeTCP(in net.Conn) error {
 	}
 
 	target := in.LocalAddr().String()
-	t := p.Lookup(target)
-	if t == nil {
-		_, port, _ := net.SplitHostPort(target)
-		t = p.Lookup(":" + port)
+	var t *route.Target
+	if p.LookupAddr != nil {
+		t = p.LookupAddr(target)
+	} else {
+		t = p.Lookup(target)
+		if t == nil {
+			_, port, _ := net.SplitHostPort(target)
+			t = p.Lookup(":" + port)
+		}
 	}
 	if t == nil {
 		if p.Noroute != nil {
